@@ -50,9 +50,10 @@ type Profile struct {
 	Shutdown    bool        `json:"shutdown"`
 	CloseIn     bool        `json:"closein"`
 	WFail       bool        `json:"wfail"`
+	LateStarts  bool        `json:"late_starts,omitempty"` /* Attempts also arrive after Broker.Do has returned (a handler that was already running). */
 	WFailLater  bool        `json:"wfail_later,omitempty"` /* Also: the next write succeeds, the one after it fails. */
-	MaxConsume  int         `json:"max_consume"`     /* Only with a small och. */
-	Await       bool        `json:"await,omitempty"` /* The operator's side may also be found waiting for the next item. */
+	MaxConsume  int         `json:"max_consume"`           /* Only with a small och. */
+	Await       bool        `json:"await,omitempty"`       /* The operator's side may also be found waiting for the next item. */
 	/* LateOut: a Read that is pending when the Connect call returns stays
 	pending (as net/http's does: closing the request body waits for it) and
 	may still be handed one more chunk. */
@@ -391,7 +392,7 @@ func (w *World) Enabled() []Event {
 			}
 		}
 	}
-	if len(w.attempts) < p.MaxAttempts && !w.doReturned {
+	if len(w.attempts) < p.MaxAttempts && (!w.doReturned || p.LateStarts) {
 		for i, s := range p.Starts {
 			if w.usage[i] < s.Max {
 				evs = append(evs, Event{Op: "start", Spec: i})
